@@ -1,4 +1,5 @@
 import GlmVerif.Gen.C10
+import GlmVerif.Props.C10.T_idet
 import GlmVerif.Props.C10.T_det
 import GlmVerif.Props.C10.T_inv_left
 import GlmVerif.Props.C10.T_inv_right
@@ -24,7 +25,8 @@ namespace Glm.Props.C10
 open Glm Glm.Spec.C10 Glm.Gen.C10
 theorem all_ok : ∀ f ∈ families, f.ok lookup = true := by
   simp only [families, List.mem_cons, List.not_mem_nil, or_false, forall_eq_or_imp, forall_eq]
-  exact ⟨(Family.ok_congr f_det (fun ks => by rw [show f_det.unit = "det" from rfl, lookup_det])).trans det_ok,
+  exact ⟨(Family.ok_congr f_idet (fun ks => by rw [show f_idet.unit = "idet" from rfl, lookup_idet])).trans idet_ok,
+    (Family.ok_congr f_det (fun ks => by rw [show f_det.unit = "det" from rfl, lookup_det])).trans det_ok,
     (Family.ok_congr f_inv_left (fun ks => by rw [show f_inv_left.unit = "inv" from rfl, lookup_inv])).trans inv_left_ok,
     (Family.ok_congr f_inv_right (fun ks => by rw [show f_inv_right.unit = "inv" from rfl, lookup_inv])).trans inv_right_ok,
     (Family.ok_congr f_invtr (fun ks => by rw [show f_invtr.unit = "invtr" from rfl, lookup_invtr])).trans invtr_ok,
